@@ -208,7 +208,7 @@ class Expected:
     pass
 
 
-def expected_pairs(p1, p2, r_km, m_s, start_ms, end_ms):
+def expected_pairs(p1, p2, r_km, m_s, start_ms, end_ms, slack=0.0):
     """brute force -> Expected with must / may sets of (id1, id2) and the
     reference |dt| [ms] and chord [km] of every candidate"""
     lat1, lon1 = P.to_arrays(p1)
@@ -231,7 +231,7 @@ def expected_pairs(p1, p2, r_km, m_s, start_ms, end_ms):
         cand_t = cand
     ii, jj = np.nonzero(cand_t)
     dist = S.distance_pairs(lat1[ii], lon1[ii], lat2[jj], lon2[jj], "chord")
-    band = S.band_km(r_km)
+    band = S.band_km(r_km) + S.LD(slack) * r_km
     must = dist < r_km - band
     may = dist <= r_km + band
     e = Expected()
@@ -466,17 +466,18 @@ def run_calls(case, ctx, calls, fresh):
         return ent[0]
     for k, call in enumerate(calls):
         r_km, m_s, start, end = thresholds(call)
+        slack = P.radius_rel_slack(call["max_distance"])
         key = (call["primary"], call["secondary"], float(r_km), m_s, start,
-               end)
+               end, slack)
         rkey = (call["secondary"], call["primary"], float(r_km), m_s, start,
-                end)
+                end, slack)
         if key not in cache:
             if rkey in cache:
                 cache[key] = transposed(cache[rkey])
             else:
                 cache[key] = expected_pairs(
                     sets[call["primary"]], sets[call["secondary"]], r_km, m_s,
-                    start, end)
+                    start, end, slack)
         exp = cache[key]
         col = collocator_class()() if fresh else shared
         col.seen = set()
@@ -505,7 +506,7 @@ def run_calls(case, ctx, calls, fresh):
             if not (exp.must <= got <= exp.may):
                 nowin = expected_pairs(
                     sets[call["primary"]], sets[call["secondary"]], r_km,
-                    None, None, None)
+                    None, None, None, slack)
                 if nowin.must <= got <= nowin.may:
                     ctx.fail("spatial-only/window-ignored", (
                         "max_interval=None: pairs outside [start, end] are "
@@ -577,6 +578,8 @@ def label_call(ctx, call, exp, col, sets, layouts, k, prev_build):
     else:
         ctx.label("interval-as-" + call["max_interval"]["as"])
     rad = call["max_distance"]
+    if rad.get("np_type"):
+        ctx.label("distance-np-" + rad["np_type"])
     ctx.label("distance-number" if rad["style"] == "number" else
               "distance-" + (UNIT_CLASS[rad["unit"]] if rad["unit"]
                              else "bare-string"))
@@ -617,7 +620,9 @@ def distance_specs(r_nominal=None, lo=0.001, hi=2000.0):
                           math.log10(hi)).map(lambda e: 10.0 ** e),
                 st.sampled_from([v for v in (0.001, 0.01, 0.1, 1.0, 5.0, 15.0,
                                              100.0, 300.0, 2000.0)
-                                 if lo <= v <= hi])))
+                                 if lo <= v <= hi]),
+                st.integers(max(1, math.ceil(lo)), max(1, min(150, int(hi))))
+                .map(float) if hi >= 1 else st.just(hi)))
         else:
             r = r_nominal
         style = draw(st.sampled_from(["number", "number", "space", "space",
@@ -632,8 +637,13 @@ def distance_specs(r_nominal=None, lo=0.001, hi=2000.0):
         value = float("%.6g" % (r * den / num))
         as_int = style == "number" and value.is_integer() and draw(
             st.booleans())
-        return {"value": value, "unit": unit, "style": style,
+        spec = {"value": value, "unit": unit, "style": style,
                 "as_int": as_int}
+        if style == "number" and draw(st.sampled_from([False, False, True])):
+            # the number as NumPy scalar (same reference distance)
+            spec["np_type"] = draw(st.sampled_from(
+                sorted(P.np_scalar_types(value))))
+        return spec
     return build()
 
 
